@@ -82,6 +82,11 @@ def main():
         out = rr.stdout
         if "type-check errors" in out or "knutlint: load" in out:
             return m, "does-not-compile", out.strip().splitlines()[-1][:300]
+        if m.get("expect") == "silent":
+            if rr.returncode == 0:
+                return m, "silent-as-expected", ""
+            others = [l.strip()[:200] for l in out.splitlines() if "VIOLATED" in l or "UNDECIDED" in l or "FLOOR" in l]
+            return m, "false-alarm", (others[0] if others else "exit 1")
         hits = []
         for l in out.splitlines():
             if ("VIOLATED" in l or "UNDECIDED" in l or "FLOOR" in l) and "rule=" in l:
@@ -101,7 +106,7 @@ def main():
             for m, status, detail in ex.map(run_mutant, mutants):
                 results.append({"mutant": m["id"], "what": m["what"], "expected_rules": m["rules"], "status": status, "detail": detail})
                 print(f"{prop}: mutant {m['id']} ({m['what']}): {status} {detail[:160]}")
-    missed = [r for r in results if r["status"] == "missed"]
+    missed = [r for r in results if r["status"] in ("missed", "false-alarm")]
     if missed:
         print(f"{prop}: SELFTEST: {len(missed)} mutant(s) not detected: " + ", ".join(r["mutant"] for r in missed))
     # 4. extend the evidence file written by step 1
